@@ -19,6 +19,9 @@ impl std::error::Error for MockErr {}
 
 #[derive(Debug, Clone)]
 pub enum Incoming {
+	/// a message the transport has taken in but only hands over once the named gate opens (a `receive()` that
+	/// needs several reads: the client must keep that call alive across whatever else it has to do meanwhile)
+	Held(String, String),
 	Text(String),
 	Bytes(Vec<u8>),
 	Err(String),
@@ -170,6 +173,10 @@ impl TransportReceiverT for MockReceiver {
 	fn receive(&mut self) -> impl Future<Output = Result<ReceivedMessage, Self::Error>> + Send {
 		async move {
 			match self.rx.recv().await {
+				Some(Incoming::Held(t, gate)) => {
+					self.shared.gates.wait(&gate).await;
+					Ok(ReceivedMessage::Text(t))
+				}
 				Some(Incoming::Text(t)) => Ok(ReceivedMessage::Text(t)),
 				Some(Incoming::Bytes(b)) => Ok(ReceivedMessage::Bytes(b)),
 				Some(Incoming::Err(e)) => {
@@ -203,8 +210,8 @@ pub struct ClientCfg {
 	pub id_kind: IdK,
 	pub max_concurrent_requests: usize,
 	pub sub_buffer: usize,
-	/// WebSocket pings every 100 s of the paused clock; the inactivity limit (measured by the client with the real
-	/// clock) is far out of reach
+	/// WebSocket pings every 100 s of the paused clock, the inactivity timer ticks every 50 s of it; the client
+	/// measures inactivity itself with the real clock, against which 50 s are out of reach
 	pub ping: bool,
 	/// finish the builder with `.set_rpc_middleware(RpcServiceBuilder::new())` (an identity middleware): every option
 	/// set before it must survive
@@ -241,7 +248,7 @@ impl MockClient {
 			IdK::Number => IdKind::Number,
 			IdK::String => IdKind::String,
 		};
-		let ping_cfg = jsonrpsee_core::client::async_client::PingConfig::new().ping_interval(std::time::Duration::from_secs(100)).inactive_limit(std::time::Duration::from_secs(1_000_000_000)).max_failures(1000);
+		let ping_cfg = jsonrpsee_core::client::async_client::PingConfig::new().ping_interval(std::time::Duration::from_secs(100)).inactive_limit(std::time::Duration::from_secs(50)).max_failures(1000);
 		// the builders' setters are applied in an order drawn from the configuration: none may reset another
 		fn permute<T>(v: &mut Vec<T>, mut x: u64) {
 			for i in (1..v.len()).rev() {
@@ -282,6 +289,9 @@ impl MockClient {
 
 	pub fn push_text(&self, s: impl Into<String>) {
 		let _ = self.to_client.send(Incoming::Text(s.into()));
+	}
+	pub fn push_text_held(&self, s: impl Into<String>, gate: &str) {
+		let _ = self.to_client.send(Incoming::Held(s.into(), gate.to_string()));
 	}
 	pub fn push_bytes(&self, b: Vec<u8>) {
 		let _ = self.to_client.send(Incoming::Bytes(b));
